@@ -35,11 +35,57 @@ func stressRequest(i, k int, lst *vTrans) *RawMessage {
 	m.AddHeader("To", "<sip:svc.test>")
 	m.AddHeader("Call-ID", fmt.Sprintf("s%d-%d", k, i))
 	m.AddHeader("CSeq", "1 OPTIONS")
+	if i%5 == 0 {
+		// a top Route naming this listener by host name, in a spelling not seen before: the loops of all
+		// listeners consult the service's shared resolver for it
+		name := []byte("localhost")
+		for bit := 0; bit < len(name); bit++ {
+			if (i/5+k*37)>>uint(bit)&1 == 1 {
+				name[bit] -= 32
+			}
+		}
+		m.AddHeader("Route", fmt.Sprintf("<sip:%s:%d;lr>", name, lst.port))
+	}
 	m.AddHeader("Content-Length", "0")
 	return NewRawMessage(fmt.Sprintf("127.0.%d.%d", 10+k, 1+i%200), 5060+i%100, lst, true, m)
 }
 
+// net.Pipe connections have no TCP addresses; give them some
+type vPipeConn struct{ net.Conn }
+
+func (c *vPipeConn) LocalAddr() net.Addr  { return &net.TCPAddr{IP: net.IPv4(127, 0, 0, 1), Port: 5061} }
+func (c *vPipeConn) RemoteAddr() net.Addr { return &net.TCPAddr{IP: net.IPv4(127, 0, 0, 1), Port: 40001} }
+
+type vNullHandler struct{}
+
+func (vNullHandler) HandleRawMessage(msg *RawMessage) {}
+func (vNullHandler) HandleMessage(msg *Message)       {}
+
 func init() {
+	// race exitflag <rounds>: a server transport built around an established connection (as for backend and
+	// next-hop connections) ends its receive goroutine when the peer closes, while the owner of the
+	// ProxyItem prunes finished transports (IsExit) from another goroutine, as connectionEstablished does.
+	vReg("race exitflag", func(a []string) string {
+		rounds, _ := strconv.Atoi(a[0])
+		for i := 0; i < rounds; i++ {
+			c1, c2 := net.Pipe()
+			item := &ProxyItem{transports: []ServerTransport{}, msgHandler: vNullHandler{}}
+			item.connectionEstablished(&vPipeConn{Conn: c1}, true, NewSelfLearnRoute())
+			done := make(chan bool)
+			go func() {
+				for k := 0; k < 200; k++ {
+					item.Lock()
+					item.removeExitServerTransports()
+					item.Unlock()
+				}
+				done <- true
+			}()
+			c2.Close()
+			<-done
+			c1.Close()
+		}
+		return "ok"
+	})
 	// race inproc <listeners> <millis> <seed>: several real Proxy loops of ONE service (shared self-learned
 	// route table) fed concurrently, while backends are added/removed, the buffer pool, the transport table
 	// and a resolver are used from other goroutines. Built with -race; the check parses the race log.
